@@ -664,7 +664,7 @@ class Verifier(Engine):
         if node.orelse:
             raise GenerationError("for-else")
         k = self.loop_nodes.get(id(node))
-        spec = self.c.loops.get(k)
+        spec = self.loop_specs.get(k)
         if spec is not None and spec.abstract:
             self.frame_check(node, loop_fingerprint(node), spec.allow_writes)
             return [("normal", st, None)]
@@ -698,7 +698,7 @@ class Verifier(Engine):
         if node.orelse:
             raise GenerationError("while-else")
         k = self.loop_nodes.get(id(node))
-        spec = self.c.loops.get(k)
+        spec = self.loop_specs.get(k)
         if spec is None:
             raise GenerationError(f"{self.c.qualname}: loop #{k} '{loop_fingerprint(node)}' has no invariant")
         if spec.abstract:
